@@ -685,3 +685,145 @@ def _dist_t(ctx, case, periodic):
 
 contract("C05", "mdtraj/geometry/src/kernels/distancekernels.h", "dist_t", cases=CASES, lang="c", replay="dist", covers=["pair-iteration", "finished"])(lambda ctx, case: _dist_t(ctx, case, False))
 contract("C05", "mdtraj/geometry/src/kernels/distancekernels.h", "dist_mic_t", cases=CASES, lang="c", replay="dist", covers=["pair-iteration", "finished"])(lambda ctx, case: _dist_t(ctx, case, True))
+
+
+# ---------------------------------------------------------------------------------------------
+# the NumPy reference implementations (opt=False): _distance, _displacement, _reduce_box_vectors, _distance_mic
+def _ref_env(ctx):
+    from mdvc import npobj
+
+    ctx.interp.import_models["numpy"] = npobj.NumpyO()
+    ctx.interp.import_models["mdtraj.geometry"] = Namespace("geometry", _geometry=None)
+    return ctx.module("mdtraj/geometry/distance.py"), npobj
+
+
+def reference_paths(ctx, case):
+    import numpy as np
+
+    mod, npobj = _ref_env(ctx)
+    ex = ctx.ex
+    F, A = 1, 3
+    X = [[[ctx.real(f"x{f}_{a}_{k}") for k in range(3)] for a in range(A)] for f in range(F)]
+    xyz = npobj.oarr((F, A, 3), lambda f, a, k: X[f][a][k])
+    pairs = np.array([[0, 2], [2, 1]], dtype=np.int32)
+    if case == "plain":
+        d = ctx.call(mod.globals["_distance"], xyz, pairs)
+        v = ctx.call(mod.globals["_displacement"], xyz, pairs)
+        ctx.ensure("no-exception", not d.raised and not v.raised)
+        if d.raised or v.raised:
+            return
+        ctx.cover("returned")
+        for j, (a, b) in enumerate(pairs.tolist()):
+            diff = [rterm(X[0][b][k]) - rterm(X[0][a][k]) for k in range(3)]
+            for k in range(3):
+                ctx.ensure(f"pair{j}:displacement[{k}]=x_b-x_a", rterm(v.value[0][j][k]) == diff[k])
+            dv = rterm(d.value[0][j])
+            ctx.ensure(f"pair{j}:distance>=0-and-distance^2=|x_b-x_a|^2", z3.And(dv >= 0, dv * dv == sum(t * t for t in diff)))
+        return
+    B = [[ctx.real(f"b{r}{k}") for k in range(3)] for r in range(3)]  # rows: the cell vectors a, b, c
+    if case == "reduce-orthorhombic":
+        ctx.assume(*[B[r][k] == 0 for r in range(3) for k in range(3) if r != k], *[B[k][k] > 0 for k in range(3)])
+        vecs = npobj.oarr((3, 3), lambda r, k: B[r][k])
+        out = ctx.call(mod.globals["_reduce_box_vectors"], vecs)
+        ctx.ensure("no-exception", not out.raised)
+        if out.raised:
+            return
+        ctx.cover("returned")
+        for r in range(3):
+            for k in range(3):
+                ctx.ensure(f"orthorhombic-cell-is-returned-unchanged[{r}][{k}]", rterm(out.value[r][k]) == rterm(B[r][k]))
+        return
+    if case in ("reduce", "mic-triclinic"):
+        ctx.assume(B[0][1] == 0, B[0][2] == 0, B[1][2] == 0, B[0][0] > 0, B[1][1] > 0, B[2][2] > 0)
+    else:
+        ctx.assume(*[B[r][k] == 0 for r in range(3) for k in range(3) if r != k], *[B[k][k] > 0 for k in range(3)])
+    if case == "reduce":
+        vecs = npobj.oarr((3, 3), lambda r, k: B[r][k])
+        before = [[vecs[r][k] for k in range(3)] for r in range(3)]
+        out = ctx.call(mod.globals["_reduce_box_vectors"], vecs)
+        ctx.ensure("no-exception", not out.raised)
+        if out.raised:
+            return
+        ctx.cover("returned")
+        r1, r2, r3 = out.value
+        wit = [n for (_t, n) in ex.path.ghost.get("round_witness", [])]
+        ctx.ensure("three-integer-roundings", z3.BoolVal(len(wit) == 3))
+        ctx.ensure("caller's-vectors-not-modified", z3.BoolVal(all(vecs[r][k] is before[r][k] for r in range(3) for k in range(3))))
+        if len(wit) != 3:
+            return
+        k1, k2, k3 = (z3.ToReal(n) for n in wit)
+        Bt = [[rterm(B[r][k]) for k in range(3)] for r in range(3)]
+        for k in range(3):
+            ctx.ensure(f"a'[{k}]=a", rterm(r1[k]) == Bt[0][k])
+            ctx.ensure(f"b'[{k}]=b-k3*a(integer-k3)", rterm(r2[k]) == Bt[1][k] - k3 * Bt[0][k])
+            ctx.ensure(f"c'[{k}]=c-k1*b-k2*a(integer-k1,k2)", rterm(r3[k]) == Bt[2][k] - k1 * Bt[1][k] - k2 * Bt[0][k])
+        half = z3.RealVal("1/2")
+        ctx.ensure("reduced:|b'_x|<=a_x/2", z3.And(rterm(r2[0]) <= half * Bt[0][0], -rterm(r2[0]) <= half * Bt[0][0]))
+        ctx.ensure("reduced:|c'_y|<=b_y/2", z3.And(rterm(r3[1]) <= half * Bt[1][1], -rterm(r3[1]) <= half * Bt[1][1]))
+        ctx.ensure("reduced:|c'_x|<=a_x/2", z3.And(rterm(r3[0]) <= half * Bt[0][0], -rterm(r3[0]) <= half * Bt[0][0]))
+        return
+    box_t = npobj.oarr((F, 3, 3), lambda f, r, k: B[k][r])  # the caller hands over the transposed cell
+    orth = case == "mic-orthorhombic"
+    from mdvc import npreal
+
+    npreal.CANON_SQRT[0] = True  # norms of polynomially equal vectors are the same term
+    reduced = {}
+    # _reduce_box_vectors is replaced by its contract (case "reduce"): a lower-triangular cell with positive diagonal that spans the
+    # same lattice; for an orthorhombic cell it returns the cell itself (all three multipliers are 0)
+    Rv = B if orth else [[ctx.real(f"r{r}{k}") for k in range(3)] for r in range(3)]
+    if not orth:
+        ctx.assume(Rv[0][1] == 0, Rv[0][2] == 0, Rv[1][2] == 0, Rv[0][0] > 0, Rv[1][1] > 0, Rv[2][2] > 0)
+
+    def reduce_model(vectors):
+        rows = [[vectors[r][k] for k in range(3)] for r in range(3)]
+        reduced["arg_is_the_cell_rows"] = all(rows[r][k] is B[r][k] for r in range(3) for k in range(3))
+        return tuple(npobj.oarr((3,), lambda k, r=r: Rv[r][k]) for r in range(3))
+    mod.globals["_reduce_box_vectors"] = reduce_model
+    try:
+        out = ctx.call(mod.globals["_distance_mic"], xyz, pairs, box_t, orth)
+    finally:
+        npreal.CANON_SQRT[0] = False
+    ctx.ensure("no-exception", not out.raised)
+    if out.raised:
+        return
+    ctx.cover("returned")
+    wit = [z3.ToReal(n) for (_t, n) in ex.path.ghost.get("round_witness", [])]
+    per = 3
+    V = [[rterm(Rv[r][k]) for k in range(3)] for r in range(3)]
+    ctx.ensure("box-reduction-gets-the-cell-vectors-as-rows", z3.BoolVal(reduced.get("arg_is_the_cell_rows", False)))
+    ctx.ensure("three-roundings-per-pair", z3.BoolVal(len(wit) == per * len(pairs)))
+    if len(wit) != per * len(pairs):
+        return
+    from mdvc import polyid
+
+    def norm(vec):
+        return npreal.SQRT(polyid.canonical(sum(t * t for t in vec)))
+    half = z3.RealVal("1/2")
+    # WBdiv: rounding the quotient r/B to the integer n and subtracting n*B leaves a remainder of at most B/2
+    WBdiv = ctx.lemma("WBdiv:|n-t|<=1/2,t*B=r,B>0=>|r-n*B|<=B/2", 4, lambda n, t, Bv, r: z3.Implies(
+        z3.And(n - t <= half, t - n <= half, t * Bv == r, Bv > 0), z3.And(r - n * Bv <= Bv / 2, n * Bv - r <= Bv / 2)))
+    raw = ex.path.ghost.get("round_witness", [])
+    for j, (a, b) in enumerate(pairs.tolist()):
+        n3, n2, n1 = wit[per * j: per * j + 3]
+        diff = [rterm(X[0][b][k]) - rterm(X[0][a][k]) for k in range(3)]
+        w = [diff[k] - n3 * V[2][k] - n2 * V[1][k] - n1 * V[0][k] for k in range(3)]
+        dv = rterm(out.value[0][j])
+        t3, t2, t1 = (raw[per * j + q][0] for q in range(3))  # the quotients the code rounded
+        WBdiv(n3, t3, V[2][2], diff[2])
+        WBdiv(n2, t2, V[1][1], diff[1] - n3 * V[2][1])
+        WBdiv(n1, t1, V[0][0], diff[0] - n3 * V[2][0] - n2 * V[1][0])
+        if orth:
+            ctx.ensure(f"pair{j}:distance=|(x_b-x_a)-n.L|(integer-n)", dv == norm(w))
+            for k in range(3):
+                ctx.ensure(f"pair{j}:wrap-bound[{k}]:|component|<=L/2", z3.And(w[k] <= V[k][k] / 2, -w[k] <= V[k][k] / 2))
+        else:
+            imgs = [[w[k] + x * V[0][k] + y * V[1][k] + z_ * V[2][k] for k in range(3)] for x in (-1, 0, 1) for y in (-1, 0, 1) for z_ in (-1, 0, 1)]
+            norms = [norm(im) for im in imgs]
+            for k in (2, 1, 0):  # sequential wrapping by c, then b, then a of a lower-triangular cell: the wrapped vector lies in the centred cell
+                ctx.ensure(f"pair{j}:wrapped-vector-component[{k}]-within-half-the-diagonal-entry", z3.And(w[k] <= V[k][k] / 2, -w[k] <= V[k][k] / 2))
+            ctx.ensure(f"pair{j}:distance<=the-length-of-every-one-of-the-27-images-of-the-wrapped-vector(reduced-cell)", z3.And(*[dv <= s for s in norms]))
+            ctx.ensure(f"pair{j}:distance-is-the-length-of-one-of-them", z3.Or(*[dv == s for s in norms]))
+
+
+for _c in ["plain", "reduce", "reduce-orthorhombic", "mic-orthorhombic", "mic-triclinic"]:
+    contract("C05", "mdtraj/geometry/distance.py", "_distance|_displacement|_reduce_box_vectors|_distance_mic(opt=False)", cases=[_c], replay="dist", covers=["returned"])(reference_paths)
